@@ -230,6 +230,14 @@ func (w *c39World) serve(q c39Req, hosts []refHost) (c39Got, error) {
 	}
 	switch q.kind {
 	case kSV:
+		if q.peer < 0 {
+			sv, e := n.eng.GetSecretValue(context.Background(),
+				drkey.SecretValueMeta{Validity: q.t, ProtoId: drkey.Protocol(q.proto)})
+			if e != nil {
+				return c39Got{}, e
+			}
+			return c39Got{refKey(sv.Key), sv.Epoch.NotBefore, sv.Epoch.NotAfter}, nil
+		}
 		req, _ := wireCopy(&cppb.DRKeySecretValueRequest{ValTime: ts, ProtocolId: dkpb.Protocol(q.proto)},
 			&cppb.DRKeySecretValueRequest{})
 		r, e := n.srv.DRKeySecretValue(tcpPeer(c39InfraIP), req)
@@ -247,6 +255,14 @@ func (w *c39World) serve(q c39Req, hosts []refHost) (c39Got, error) {
 		}
 		return c39Got{refKey(k.Key), k.Epoch.NotBefore, k.Epoch.NotAfter}, nil
 	case kLvl1Intra:
+		if q.peer < 0 {
+			k, e := n.eng.DeriveLevel1(context.Background(),
+				drkey.Level1Meta{Validity: q.t, ProtoId: drkey.Protocol(q.proto), SrcIA: xia, DstIA: yia})
+			if e != nil {
+				return c39Got{}, e
+			}
+			return c39Got{refKey(k.Key), k.Epoch.NotBefore, k.Epoch.NotAfter}, nil
+		}
 		req, _ := wireCopy(&cppb.DRKeyIntraLevel1Request{ValTime: ts, ProtocolId: dkpb.Protocol(q.proto),
 			SrcIa: uint64(xia), DstIa: uint64(yia)}, &cppb.DRKeyIntraLevel1Request{})
 		r, e := n.srv.DRKeyIntraLevel1(tcpPeer(c39InfraIP), req)
@@ -317,6 +333,11 @@ func (w *c39World) serve(q c39Req, hosts []refHost) (c39Got, error) {
 type c39Params struct {
 	worlds [][]c39ASConf
 	protos []uint16 // level 2/3 protocols; level 0/1 is asked for the predefined ones
+	// svProtos: niche protocol identifiers whose own secret value / level-1 key (SV^p, K^p_{A->B}) is asked from the
+	// ServiceEngine directly (the gRPC handlers only admit configured, i.e. named, protocols at level 0/1). The set
+	// exercises both bytes of the 16 bit identifier: ids congruent mod 256 to the predefined ones and to each other,
+	// ids with the same bytes swapped, the extreme values of each byte.
+	svProtos []uint16
 	hosts  []refHost
 	times  []time.Time
 }
@@ -341,6 +362,7 @@ func c39Alphabet() c39Params {
 		{{iaA, []byte{0}, 600 * time.Second}, {iaB, append(sec(15, 0x30), sec(16, 0x30)[15]^1), 360 * time.Second}, {iaC, sec(17, 0x30), 3600 * time.Second}},
 	}
 	p.protos = []uint16{1, 2, 0x100, 0xffff}
+	p.svProtos = []uint16{2, 0x00ff, 0x0100, 0x0101, 0x0102, 0x0201, 0x0200, 0x8000, 0xff00, 0xffff, 10000}
 	v6a := [16]byte{0x20, 0x01, 0x0d, 0xb8, 15: 1}
 	v6b := [16]byte{0x20, 0x01, 0x0d, 0xb8, 15: 2}
 	p.hosts = []refHost{
@@ -362,6 +384,7 @@ func c39Alphabet() c39Params {
 			{"65535-ffff:ffff:ffff", sec(64, 0x01), 360 * time.Second}, {"1-0:0:1", sec(16, 0x30), 360 * time.Second},
 			{iaC, sec(33, 0x30), 420 * time.Second}})
 		p.protos = append(p.protos, 3, 0x0300, 0x8000, 0x0101)
+		p.svProtos = append(p.svProtos, 3, 0x0080, 0x00fe, 0x0300, 0x0301, 0x7fff, 0x8001, 0x80ff, 0xfffe, 10000+256, 10000+512)
 		v6c := [16]byte{0x0a, 0, 0, 1} // a00:1:: -- starts with the bytes of 10.0.0.1
 		p.hosts = append(p.hosts,
 			v4("255.255.255.255", 255, 255, 255, 255), v6("::", [16]byte{}), v6("a00:1::", v6c), svc("Wildcard_A", 0x0010),
@@ -410,7 +433,7 @@ func hier(proto uint16) string {
 // is identified by its master secret (a key does not depend on the issuer's ISD-AS), the subject AS by its ISD-AS.
 func c39Desc(w *c39World, q c39Req, hosts []refHost, b, e time.Time) string {
 	l0 := q.proto
-	if !refPredefined(l0) {
+	if !refPredefined(l0) && q.kind >= kASHost { // level 2/3 keys of niche protocols hang below the generic level 0/1
 		l0 = 0
 	}
 	ep := fmt.Sprintf("e%d-%d|issuer-secret=%x", b.Unix(), e.Unix(), w.nodes[q.x].secret)
@@ -460,7 +483,7 @@ func (c *c39Checker) check(wi int, w *c39World, q c39Req, hosts []refHost, pass 
 	}
 	b, e := uint32(got.begin.Unix()), uint32(got.end.Unix())
 	l0 := q.proto
-	if !refPredefined(l0) {
+	if !refPredefined(l0) && q.kind >= kASHost { // level 2/3 keys of niche protocols hang below the generic level 0/1
 		l0 = 0
 	}
 	sv := c.refSVCached(X.secret, l0, b, e)
@@ -506,7 +529,7 @@ func (c *c39Checker) check(wi int, w *c39World, q c39Req, hosts []refHost, pass 
 
 func (w *c39World) reqStr(q c39Req, hosts []refHost) string {
 	via := "grpc handler"
-	if q.kind >= kASHost && q.peer < 0 {
+	if q.peer < 0 {
 		via = "ServiceEngine"
 	} else if q.kind >= kASHost {
 		via += ", requester " + hosts[q.peer].Str
@@ -544,6 +567,12 @@ func c39Requests(w *c39World, p c39Params) []c39Packed {
 		for x := 0; x < nn; x++ {
 			for _, l0 := range []uint16{0, 1} {
 				out = append(out, pack(c39Req{kind: kSV, at: x, proto: l0, t: t, x: x, y: x, ha: -1, hb: -1}, ti))
+			}
+			for _, l0 := range p.svProtos {
+				out = append(out, pack(c39Req{kind: kSV, at: x, peer: -1, proto: l0, t: t, x: x, y: x, ha: -1, hb: -1}, ti))
+				for y := 0; y < nn; y++ {
+					out = append(out, pack(c39Req{kind: kLvl1Intra, at: x, peer: -1, proto: l0, t: t, x: x, y: y, ha: -1, hb: -1}, ti))
+				}
 			}
 			for y := 0; y < nn; y++ {
 				for _, l0 := range []uint16{0, 1} {
@@ -767,6 +796,7 @@ func TestC39(t *testing.T) {
 	r.Extra["inter_as_level1_requests_served"] = fetches.Load()
 	r.Extra["worlds"] = len(p.worlds)
 	r.Extra["protocols_level2_3"] = p.protos
+	r.Extra["protocols_level0_1_niche"] = p.svProtos
 	r.Extra["hosts"] = func() (s []string) {
 		for _, h := range p.hosts {
 			s = append(s, h.Str)
